@@ -54,6 +54,7 @@ class TableCacheWorld:
         r = self._incarnate(list(range(len(self.W))), False, os.environ.get("PYTHONHASHSEED", "0"),
                             overlaps=list(range(len(self.overlap_groups))))
         self.overlap_base = r.get("overlap_digests") or []
+        self.seq_base = {}
         if r.get("import_exc") or r.get("ctor_exc") or r.get("rewritten"):
             raise RuntimeError("baseline incarnation under a valid cache misbehaved: %s" % {k: r.get(k) for k in ("import_exc", "ctor_exc", "rewritten")})
         self.baseline = r["digests"]
@@ -133,12 +134,12 @@ class TableCacheWorld:
             f.write(new)
 
     def _incarnate(self, idxs, write_fault, hashseed, want=None, pyflags=(), force_optimize=False, crash_at=None, subclass=None,
-                   overlaps=()):
+                   overlaps=(), sequential=False):
         shutil.rmtree(os.path.join(self.pkg, "__pycache__"), ignore_errors=True)
         job = {"items": [self.W[i] for i in idxs], "write_fault": write_fault, "want_outcomes": want or [],
                "force_optimize": force_optimize, "crash_at": crash_at, "subclass": subclass,
                "reference_table": None if (force_optimize or crash_at) else self.valid_file,
-               "overlaps": [[self.W[i] for i in self.overlap_groups[g]] for g in overlaps]}
+               "overlaps": [[self.W[i] for i in self.overlap_groups[g]] for g in overlaps], "sequential": sequential}
         r = subprocess.run([core.PY] + list(pyflags) + [os.path.join(core.HERE, "incarnation.py"), self.tree], input=json.dumps(job),
                            stdout=subprocess.PIPE, stderr=subprocess.DEVNULL, text=True, timeout=900,
                            env=core.worker_env(hashseed), cwd=self.workroot)
@@ -204,8 +205,19 @@ class TableCacheWorld:
             ov = [] if inc.get("crash_at") else [(i + len(inc["items"])) % len(self.overlap_groups), (i + 3 + inc["items"][0]) % len(self.overlap_groups)]
             if inc["write_fault"]:
                 ov = ov[:1]           # every constructor regenerates there (0.5 s each)
+            seq = bool(inc.get("sequential"))
+            base = self.baseline
+            if seq:
+                key = core.digest_of(inc["items"])
+                if key not in self.seq_base:
+                    # the same sequence of scripts, in one process, under a valid cache
+                    self.set_state("valid")
+                    rb = self._incarnate(inc["items"], False, 0, sequential=True)
+                    self.seq_base[key] = dict(zip(inc["items"], rb.get("digests") or []))
+                    self.set_state(inc["state"])
+                base = self.seq_base[key]
             r = self._incarnate(inc["items"], inc["write_fault"], inc.get("hashseed", 0), pyflags=inc.get("pyflags") or (),
-                                crash_at=inc.get("crash_at"), overlaps=ov)
+                                crash_at=inc.get("crash_at"), overlaps=ov, sequential=seq)
             stats["incarnations"] += 1
             if inc.get("crash_at"):
                 stats["crash_armed"] += 1
@@ -259,7 +271,7 @@ class TableCacheWorld:
                                        "expected": "three objects constructed first and run later return what they return under a valid cache",
                                        "observed": "outcomes differ from the valid-cache run of the same little history"})
                     break
-            bad = [n for n, (idx, d) in enumerate(zip(inc["items"], r["digests"])) if self.baseline[idx] != d]
+            bad = [n for n, (idx, d) in enumerate(zip(inc["items"], r["digests"])) if base[idx] != d]
             stats["outcomes_compared"] += len(r["digests"])
             if bad or len(r["digests"]) != len(inc["items"]):
                 n = bad[0] if bad else 0
@@ -305,8 +317,8 @@ class TableCacheWorld:
 
     def subclass_cell(self, state, order="base_first"):
         """A user subclass with another grammar, constructed AFTER a plain DDLParser in the same process, must parse exactly
-        as it does when it is the only parser class of a process.  (Constructing it rewrites the shared cache file with its
-        own tables - the library's behaviour - which is how the 'stale signature, foreign tables' state arises in real life.)"""
+        as it does when it is the only parser class of a process.  (PLY keeps such a class's table file next to the module
+        that defines it - here a module placed in this worker's private tree.)"""
         spec = self._subclass_spec()
         out = {"status": "ok", "cells": 1, "keys": ["subclass:%s:%s" % (state, order)], "violating": [], "stats": collections.Counter()}
         if spec is None:
@@ -314,10 +326,15 @@ class TableCacheWorld:
             out["stats"] = dict(out["stats"])
             return out
         idxs = [i for i in self.small if i % 4 == 0][:12]
+        user_cache = os.path.join(self.tree, "parsetab.py")      # the subclass's own table file (next to its defining module)
+        if os.path.exists(user_cache):
+            os.remove(user_cache)
         if getattr(self, "_sub_alone", None) is None:
             self.set_state("valid")
             r0 = self._incarnate(idxs, False, 0, subclass=dict(spec, order="sub_first"))
             self._sub_alone = r0.get("digests")
+        if os.path.exists(user_cache) and order == "base_first" and state == "missing":
+            os.remove(user_cache)
         self.set_state(state)
         r = self._incarnate(idxs, False, 0, subclass=dict(spec, order=order))
         self.set_state("valid")
@@ -361,10 +378,11 @@ class TableCacheWorld:
             if pyflags and pyflags[0] == "crash":
                 trace = {"world": "tablecache", "prop": "C20", "seed": 0, "swarm": {"sweep": [st, wf, c, list(pyflags)]},
                          "incarnations": [{"state": st, "write_fault": False, "hashseed": 0, "items": idxs[:2], "crash_at": pyflags[1]},
-                                          {"state": "keep", "write_fault": False, "hashseed": 0, "items": idxs}]}
+                                          {"state": "keep", "write_fault": False, "hashseed": 0, "items": idxs, "sequential": True}]}
             else:
                 trace = {"world": "tablecache", "prop": "C20", "seed": 0, "swarm": {"sweep": [st, wf, c, list(pyflags)]},
-                         "incarnations": [{"state": st, "write_fault": wf, "hashseed": 0, "items": idxs, "pyflags": list(pyflags)}]}
+                         "incarnations": [{"state": st, "write_fault": wf, "hashseed": 0, "items": idxs, "pyflags": list(pyflags),
+                                           "sequential": True}]}
             r = self.execute(trace)
             out["cells"] += 1
             out["keys"].append("%s:%s:%d%s" % (st, "ro" if wf else "rw", c, ":" + "".join(pyflags) if pyflags else ""))
